@@ -145,6 +145,9 @@ func genC15(seed int64, tier string) []caseOut {
 		keys := map[string]*keyPair{}
 		for _, kind := range keyKinds {
 			keys[kind] = genKey(r, kind)
+			if kind != "Ed25519" && round%3 == 0 { // every EC type also with a key whose X / Y has a leading zero byte
+				keys[kind] = zeroLeadKey(kind, []string{"x", "y"}[(round/3+len(kind))%2], round/3)
+			}
 		}
 		for _, kind := range keyKinds {
 			k := keys[kind]
@@ -291,10 +294,19 @@ func genC16(seed int64, tier string) []caseOut {
 		var tamp []string
 		var trecs []interface{}
 		if err == nil {
+			var extraMembers map[string]interface{}
 			tamper := func(tl string, f func(j *jws.JWK)) {
 				t := *j
 				f(&t)
 				tb, _ := json.Marshal(&t)
+				if extraMembers != nil { // members jws.JWK does not have (e.g. the private scalar d)
+					var tm map[string]interface{}
+					json.Unmarshal(tb, &tm)
+					for k, v := range extraMembers {
+						tm[k] = v
+					}
+					tb, _ = json.Marshal(tm)
+				}
 				var back jwsutil.JWK
 				accepted := back.UnmarshalJSON(tb) == nil
 				tamp = append(tamp, fmt.Sprintf("(%s, %s)", coqJWK(&t), cBool(accepted)))
@@ -313,6 +325,21 @@ func genC16(seed int64, tier string) []caseOut {
 			tamper("y-off-curve", func(t *jws.JWK) { c := append([]byte{}, yb...); c[len(c)-1] ^= 1; t.Y = b64(c) })
 			tamper("x-off-curve", func(t *jws.JWK) { c := append([]byte{}, xb...); c[len(c)-1] ^= 2; t.X = b64(c) })
 			tamper("y-missing", func(t *jws.JWK) { t.Y = "" })
+			// an off-curve point stays off the curve when the JWK also carries a private scalar
+			dBytes := make([]byte, w)
+			dBytes[w-1] = 7
+			extraMembers = map[string]interface{}{"d": b64(dBytes)}
+			tamper("y-off-curve-with-d", func(t *jws.JWK) { c := append([]byte{}, yb...); c[len(c)-1] ^= 1; t.Y = b64(c) })
+			tamper("x-off-curve-with-d", func(t *jws.JWK) { c := append([]byte{}, xb...); c[len(c)-1] ^= 2; t.X = b64(c) })
+			extraMembers = nil
+			// coordinates are field elements: x + p and y + p name the same point but are not canonical
+			p := curve.Params().P
+			if xp := new(big.Int).Add(x, p); len(xp.Bytes()) <= w {
+				tamper("x-plus-p", func(t *jws.JWK) { t.X = b64(fixedWidth(xp, w)) })
+			}
+			if yp := new(big.Int).Add(y, p); len(yp.Bytes()) <= w {
+				tamper("y-plus-p", func(t *jws.JWK) { t.Y = b64(fixedWidth(yp, w)) })
+			}
 			tamper("wrong-curve-name", func(t *jws.JWK) {
 				t.Crv = map[string]string{"P-256": "secp256k1", "secp256k1": "P-256", "P-384": "P-521", "P-521": "P-384"}[kind]
 			})
@@ -320,8 +347,8 @@ func genC16(seed int64, tier string) []caseOut {
 		rec["tampered"] = trecs
 		h := sha256.Sum256([]byte(kind + x.String()))
 		out = append(out, caseOut{
-			Coq:    fmt.Sprintf("(mk_c16ec %s %s %s %s %s %d%%nat %s)", cStr(kind), cBig(x), cBig(y), implJWK, cBool(backOK), w, cList(tamp)),
-			Rec:    rec, Label: label, NonTri: fmt.Sprintf("%x", h[:8]),
+			Coq: fmt.Sprintf("(mk_c16ec %s %s %s %s %s %d%%nat %s)", cStr(kind), cBig(x), cBig(y), implJWK, cBool(backOK), w, cList(tamp)),
+			Rec: rec, Label: label, NonTri: fmt.Sprintf("%x", h[:8]),
 		})
 	}
 	for _, kind := range []string{"P-256", "P-384", "P-521", "secp256k1"} {
@@ -387,9 +414,9 @@ func genC16(seed int64, tier string) []caseOut {
 		}
 		h := sha256.Sum256(pub)
 		out = append(out, caseOut{
-			Coq:    fmt.Sprintf("(mk_c16ed %s %s %s %s)", cStr(string(pub)), implJWK, cBool(backOK), cList(tamp)),
-			Rec:    map[string]interface{}{"kind": "Ed25519", "pub": b64(pub), "impl_jwk": j, "roundtrip_ok": backOK},
-			Label:  label, NonTri: fmt.Sprintf("%x", h[:8]),
+			Coq:   fmt.Sprintf("(mk_c16ed %s %s %s %s)", cStr(string(pub)), implJWK, cBool(backOK), cList(tamp)),
+			Rec:   map[string]interface{}{"kind": "Ed25519", "pub": b64(pub), "impl_jwk": j, "roundtrip_ok": backOK},
+			Label: label, NonTri: fmt.Sprintf("%x", h[:8]),
 		})
 	}
 	return out
